@@ -199,6 +199,10 @@ func alphabet(cfg config, prop, tier string) ([]string, []opDesc) {
 	}
 	addReq(200, 0)
 	addReq(cfg.badCode, 0)
+	if prop != "C12" {
+		// a slow failing response: the trip happens when it COMPLETES, half a fallback period after it arrived
+		addReq(cfg.badCode, cfg.fallback/2)
+	}
 	var ds []time.Duration
 	if prop == "C12" {
 		ds = dedupe([]time.Duration{cfg.recovery / 8, cfg.recovery / 4, cfg.recovery / 2, cfg.recovery + eps, cfg.fallback})
